@@ -3,7 +3,7 @@
 P=$1; C=$2; T=${3:-quick}
 cd /repo && git status --short | grep -q . && { echo "/repo not clean"; exit 2; }
 git apply $P || exit 2
-cd /verif && checks/run $C $T > work/mutant_$C.log 2>&1; RC=$?
+cd /verif && VERIF_EVIDENCE_DIR=/verif/work/trial_evidence checks/run $C $T > work/mutant_$C.log 2>&1; RC=$?
 git -C /repo checkout -- .
 echo "exit=$RC"; grep "what:" work/mutant_$C.log | sort | uniq -c | sort -rn | head -5; tail -2 work/mutant_$C.log
 exit $RC
